@@ -7,13 +7,16 @@ vars == <<a, b, c>>
 \* ---- Round: mantissas (incl. 9..9 just below powers of ten) x digits 1..7
 Mants == {1, 5, 9, 15, 25, 99, 149, 150, 151, 994, 995, 999, 1234, 9995, 9999, 12345, 54321, 99994, 99995, 99999, 123456, 999999, 1234567, 9999994, 9999995, 9999999,
           12345678, 99999994, 99999995, 99999999, 31415926, 27182818, 10000001, 19999999, 44444445, 55555555, 14999999, 15000001}
-RInit == a \in Mants /\ b \in 1..7 /\ c = 0
+TieInts == {1, 2, 7, 9, 12, 25, 99, 123, 650, 999, 1234, 4999, 9999, 12345, 99999, 123456, 999999, 1234567, 9999999}
+RInit == a \in (Mants \cup {10 * i + 5 : i \in TieInts}) /\ b \in 1..7 /\ c = 0
 RNext == UNCHANGED vars
 RLaws == LET r == RoundMant(a, b) IN
          /\ Digits(r) \in {b, b + 1} /\ (Digits(r) = b + 1 => r = Pow10(b))                                   \* d significant digits (or the next power of ten)
          /\ (Digits(a) > b => LET u == Pow10(Digits(a) - b) IN 2 * (r * u - a) <= u /\ 2 * (a - r * u) <= u)   \* within half a unit of the d-th digit
          /\ RoundMant(r, b) * (IF Digits(r) > b THEN Pow10(Digits(r) - b) ELSE 1) = r                         \* idempotent: rounding the result again gives the same value
 RExport == ~IsTie(a, b) => Out([k |-> "round", m |-> a, d |-> b, r |-> RoundMant(a, b), shift |-> Digits(a) - b])
+\* ties that are exact in binary: x = I + 1/2 with I of d digits (mantissa 10 I + 5, exponent -1): half-up gives I + 1, and -x gives -(I + 1)
+TExportTie == (a \in {10 * i + 5 : i \in TieInts} /\ b = Digits(a) - 1) => Out([k |-> "roundtie", m |-> a, d |-> b, r |-> RoundMant(a, b)])
 \* ---- decision tables
 TInit == a \in Classes /\ b \in Classes /\ c = 0
 TNext == UNCHANGED vars
